@@ -138,3 +138,16 @@ M("c09.aberration-sign", "C09", MA, "        lon = l0 + 180.0\n        lon = lon
 M("c09.pluto-minus-sun", "C09", PL, "        xi = x + xs\n        eta = y + ys\n        zeta = z + zs\n        # Compute Pluto's distance to Earth\n        delta = sqrt(xi * xi + eta * eta + zeta * zeta)\n        # Compute right", "        xi = x - xs\n        eta = y + ys\n        zeta = z + zs\n        # Compute Pluto's distance to Earth\n        delta = sqrt(xi * xi + eta * eta + zeta * zeta)\n        # Compute right")
 M("c09.epoch-mutated", "C09", MA, "        epoch -= tau\n", "        epoch._jde -= tau\n")
 M("c09.elong-venus-nutation", "C09", "pymeeus/Venus.py", "        elon = acos(cos(betar) * cos(lambr - lsr))", "        elon = acos(cos(betar) * cos(lambr - lsr + 0.001))")
+# ---- C13
+JU = "pymeeus/Jupiter.py"
+M("c13.venus-b", "C13", V, "        b = 583.921361\n", "        b = 583.291361\n")
+M("c13.venus-round->int", "C13", V, "        k = round((365.2425 * y + 1721060.0 - a) / b)\n", "        k = int((365.2425 * y + 1721060.0 - a) / b)\n")
+M("c13.venus-1721600", "C13", V, "        k = round((365.2425 * y + 1721060.0 - a) / b)\n", "        k = round((365.2425 * y + 1721600.0 - a) / b)\n", nth=2)
+M("c13.venus-sin-sign", "C13", V, "                + sin(m) * (2.0009 + t * (-0.0033 - t * 0.00001))", "                - sin(m) * (2.0009 + t * (-0.0033 - t * 0.00001))")
+M("c13.jupiter-aphelion-k", "C13", JU, "            k = round(k + 0.5) - 0.5", "            k = round(k + 0.5) - 0.25")
+M("c13.venus-range", "C13", V, "        if y < -2000.0 or y > 4000.0:\n", "        if y < -200.0 or y > 4000.0:\n", nth=3)
+M("c13.venus-range-open", "C13", V, "        if y < -2000.0 or y > 4000.0:\n", "        if y < -3000.0 or y > 4000.0:\n", nth=1)
+M("c13.mars-station-swap", "C13", MA, "        corr = (-37.079 + t * (-0.0009 + t * 0.00002)", "        corr = (37.079 + t * (-0.0009 + t * 0.00002)")
+M("c13.venus-elong-angle", "C13", V, "        elon = (46.3245\n", "        elon = (46.5245\n")
+M("c13.mars-nodes-asc", "C13", C, "    if ascending:\n        v = 360.0 - omega\n    else:\n        v = 180.0 - omega\n    # Compute the eccentric anomaly", "    if ascending:\n        v = 180.0 - omega\n    else:\n        v = 360.0 - omega\n    # Compute the eccentric anomaly")
+M("c13.mercury-m1", "C13", "pymeeus/Mercury.py", "        m1 = 114.2088742\n", "        m1 = 114.2808742\n")
